@@ -332,6 +332,26 @@ impl<L: Language> std::fmt::Debug for Pattern<L> {
   }
 }
 
+/// Verification hooks (cargo feature `verif-hooks`).
+#[cfg(feature = "verif-hooks")]
+#[doc(hidden)]
+pub mod verif_hooks {
+  use super::*;
+  /// a `Pattern` from its parts, without parsing anything
+  pub fn pattern_from_parts<L: Language>(
+    node: PatternNode,
+    root_kind: Option<u16>,
+    strictness: MatchStrictness,
+  ) -> Pattern<L> {
+    Pattern {
+      node,
+      root_kind,
+      lang: PhantomData,
+      strictness,
+    }
+  }
+}
+
 #[cfg(test)]
 mod test {
   use super::*;
